@@ -83,7 +83,10 @@ def run(rep, tier, seed):
     n = 12000 if tier == 'thorough' else 1200
     pairs = []
     for i in range(n):
-        a = gen.gen_tree(rng, depth=rng.randint(0, 3), maxar=3, keys=KEYS, collide=(i % 5 == 0))
+        if i % 7 == 6:
+            a = gen.gen_tree(rng, depth=rng.randint(1, 2), maxar=3, atoms=gen.clash_atoms())
+        else:
+            a = gen.gen_tree(rng, depth=rng.randint(0, 3), maxar=3, keys=KEYS, collide=(i % 5 == 0))
         r = rng.random()
         kind = 'independent'
         b = None
